@@ -627,7 +627,10 @@ def variant(rng, text: str) -> str:
     for _ in range(1 + (rng.random() < 0.4)):
         k = rng.randrange(7)
         m = re.search(r"project\s+\w+\s+\"[^\"]*\"\s+(\d{4})-(\d{2})-(\d{2})", text)
-        base = date(int(m.group(1)), int(m.group(2)), int(m.group(3))) if m else date(2025, 1, 6)
+        try:
+            base = date(int(m.group(1)), int(m.group(2)), int(m.group(3))) if m else date(2025, 1, 6)
+        except ValueError:  # the source text is itself a corrupted variant with an impossible date
+            base = date(2025, 1, 6)
         try:
             close = next(i for i, ln in enumerate(lines) if ln == "}")  # end of the project header (unindented brace)
         except StopIteration:
